@@ -400,8 +400,14 @@ impl StaticMetadata {
             named_instances.clear();
         };
 
-        // Claim names for axes and named instances
-        let mut name_id_gen = 255;
+        // Claim names for axes and named instances, above any font-specific id the
+        // source itself already uses (e.g. a UFO's openTypeNameRecords)
+        let mut name_id_gen = names
+            .keys()
+            .map(|key| key.name_id.to_u16())
+            .filter(|id| *id > 255)
+            .max()
+            .unwrap_or(255);
         // Spec-reserved names (<= 255) are not allowed in the set of unique reusable strings,
         // with the exception of the default instance's subfamily name which can reuse the
         // existing nameID 2 or 17:
